@@ -51,6 +51,12 @@ def _cat() -> List[Edit]:
         E("C01", "compare-skips-result", "name_check_visitor.py", "            result, _ = unannotate_value(result, ConstraintExtension)\n            results.append(result)\n", "            result, _ = unannotate_value(result, ConstraintExtension)\n            if i > 1:\n                continue\n            results.append(result)\n", "BREAK", "visit_Compare::join"),
         E("C01", "subscript-filters-members", "name_check_visitor.py", "                for val in root_composite.value.vals\n            ]\n            return_value = unite_values(*values)", "                for val in root_composite.value.vals\n                if not isinstance(val, AnyValue)\n            ]\n            return_value = unite_values(*values)", "BREAK", "composite_from_subscript::join"),
         E("C01", "delete-visit_Starred", "name_check_visitor.py", "    def visit_Starred(self, node: ast.Starred)", "    def _visit_starred_unused(self, node: ast.Starred)", "BREAK", "visit_Starred"),
+        E("C01", "neg-index-off-by-two", "implementation.py", "index_from_back = -key.val - 1", "index_from_back = -key.val + 1", "BREAK", "scan-from-back::position"),
+        E("C01", "neg-index-invert-form", "implementation.py", "index_from_back = -key.val - 1", "index_from_back = ~key.val", "KEEP"),
+        E("C01", "front-scan-compares-before-giving-up", "implementation.py", "                                if is_many:\n                                    # Give up\n                                    break\n                                if i == key.val:\n                                    return member", "                                if i == key.val:\n                                    return member\n                                if is_many:\n                                    # Give up\n                                    break", "BREAK", "scan-from-front::gives-up"),
+        E("C01", "match-guard-only-if-narrowing", "name_check_visitor.py", "                            self.add_constraint(case.guard, guard_constraint)\n                            constraints.append(guard_constraint)", "                            self.add_constraint(case.guard, guard_constraint)\n                            if guard_constraint is not NULL_CONSTRAINT:\n                                constraints.append(guard_constraint)", "BREAK", "guard-constraint-unconditional"),
+        E("C01", "origin-overlap-test", "stacked_scopes.py", "            if current_set - constraint_set:\n                return", "            if current_set.isdisjoint(constraint_set):\n                return", "BREAK", "origin-subset"),
+        E("C01", "origin-subset-le-form", "stacked_scopes.py", "            if current_set - constraint_set:\n                return", "            if not current_set <= constraint_set:\n                return", "KEEP"),
         E("C01", "rename-locals-ifexp", "name_check_visitor.py", "            then_val = self.visit(node.body)", "            then_val = self.visit(node.body)  # reformatted", "KEEP"),
     ]
     # ------------------------------------------------------------------ C02
@@ -218,6 +224,23 @@ def _cat() -> List[Edit]:
         E("C11", "keep-rename-this_line", "node_visitor.py", "            this_line = lines[lineno - 1]\n            if (\n                re.search(f\"{re.escape(ignore_comment)}(?!\\\\[)\", this_line)\n                or error_code is not None\n                and f\"{ignore_comment}[{error_code.name}]\" in this_line\n            ):", "            current_line = lines[lineno - 1]\n            if (\n                re.search(f\"{re.escape(ignore_comment)}(?!\\\\[)\", current_line)\n                or error_code is not None\n                and f\"{ignore_comment}[{error_code.name}]\" in current_line\n            ):", "KEEP"),
         E("C12", "keep-reorder-to_argument-arms", "signature.py", "        elif self.kind is ParameterKind.VAR_KEYWORD:\n            return val, KWARGS\n        elif self.kind is ParameterKind.VAR_POSITIONAL:\n            return val, ARGS", "        elif self.kind is ParameterKind.VAR_POSITIONAL:\n            return val, ARGS\n        elif self.kind is ParameterKind.VAR_KEYWORD:\n            return val, KWARGS", "KEEP"),
         E("C14", "keep-walk-values-loop-form", "value.py", "    def walk_values(self) -> Iterable[\"Value\"]:\n        yield self\n        for arg in self.args:\n            yield from arg.walk_values()", "    def walk_values(self) -> Iterable[\"Value\"]:\n        yield self\n        for member in self.args:\n            for inner in member.walk_values():\n                yield inner", "KEEP"),
+        E("C16", "remove-chained-assignment", "name_check_visitor.py", "                    if len(statement.targets) == 1 and not isinstance(\n                        statement.targets[0], (ast.List, ast.Tuple)\n                    ):", "                    if not any(\n                        isinstance(target, (ast.List, ast.Tuple))\n                        for target in statement.targets\n                    ):", "BREAK", "single-target"),
+        E("C16", "remove-pattern-target", "name_check_visitor.py", "                    if len(statement.targets) == 1 and not isinstance(\n                        statement.targets[0], (ast.List, ast.Tuple)\n                    ):", "                    if len(statement.targets) == 1:", "BREAK", "target-is-not-a-pattern"),
+        E("C16", "keep-name-target-form", "name_check_visitor.py", "                    if len(statement.targets) == 1 and not isinstance(\n                        statement.targets[0], (ast.List, ast.Tuple)\n                    ):", "                    if len(statement.targets) == 1 and isinstance(\n                        statement.targets[0], ast.Name\n                    ):", "KEEP"),
+        E("C16", "prev-line-substring", "node_visitor.py", "                prev_line == ignore_comment\n                or error_code is not None\n                and prev_line == f\"{ignore_comment}[{error_code.name}]\"", "                ignore_comment in prev_line\n                or error_code is not None\n                and prev_line == f\"{ignore_comment}[{error_code.name}]\"", "BREAK", "ignore-arm::offset=-1"),
+        E("C16", "prev-line-not-stripped-is-still-whole-line", "node_visitor.py", "            prev_line = lines[lineno - 2].strip() if lineno >= 2 else \"\"", "            prev_line = lines[lineno - 2].strip() if lineno > 1 else \"\"", "KEEP"),
+        E("C16", "ignore-two-lines-up", "node_visitor.py", "            prev_line = lines[lineno - 2].strip() if lineno >= 2 else \"\"", "            prev_line = lines[lineno - 3].strip() if lineno >= 3 else \"\"", "BREAK", ""),
+        E("C17", "star-counted-once", "format_strings.py", "            if specifier.field_width == \"*\":\n                yield StarConversionSpecifier()\n            if specifier.precision == \"*\":\n                yield StarConversionSpecifier()", "            if \"*\" in (specifier.field_width, specifier.precision):\n                yield StarConversionSpecifier()", "BREAK", "W_STAR=1,P_STAR=1"),
+        E("C17", "star-after-value", "format_strings.py", "            if specifier.precision == \"*\":\n                yield StarConversionSpecifier()\n            if specifier.conversion_type != \"%\":\n                yield specifier", "            if specifier.conversion_type != \"%\":\n                yield specifier\n            if specifier.precision == \"*\":\n                yield StarConversionSpecifier()", "BREAK", "P_STAR=1"),
+        E("C17", "percent-consumes-argument", "format_strings.py", "            if specifier.conversion_type != \"%\":\n                yield specifier\n\n    def accept_tuple_args", "            yield specifier\n\n    def accept_tuple_args", "BREAK", "PERCENT=1"),
+        E("C17", "keep-star-elif-free-form", "format_strings.py", "            if specifier.field_width == \"*\":\n                yield StarConversionSpecifier()\n            if specifier.precision == \"*\":", "            if \"*\" == specifier.field_width:\n                yield StarConversionSpecifier()\n            if specifier.precision == \"*\":", "KEEP"),
+        E("C17", "field-index-trial-int", "format_strings.py", "    elif arg_name_str.isdecimal():\n        arg_name = int(arg_name_str)\n    else:\n        arg_name = arg_name_str", "    else:\n        try:\n            arg_name = int(arg_name_str)\n        except ValueError:\n            arg_name = arg_name_str", "BREAK", "under-isdecimal"),
+        E("C17", "field-index-isdigit", "format_strings.py", "    elif arg_name_str.isdecimal():", "    elif arg_name_str.isdigit():", "BREAK", "under-isdecimal"),
+        E("C02", "isinstance-not-runtime-check", "implementation.py", "narrowed_type, ctx.visitor, positive_only=False, runtime_check=True", "narrowed_type, ctx.visitor, positive_only=False", "BREAK", "predicate-is-runtime-check"),
+        E("C02", "negative-drop-ignores-runtime-flag", "predicates.py", "                if self.runtime_check:\n                    return _non_instances(value, self.pattern_value)\n                return None", "                return None", "BREAK", "negative-drop"),
+        E("C02", "promoted-table-loses-int-float", "predicates.py", "_PROMOTED_TYPES = {float: (int,), complex: (float, int)}", "_PROMOTED_TYPES = {complex: (float, int)}", "BREAK", "promoted-types::int->float"),
+        E("C02", "promoted-table-extra", "predicates.py", "_PROMOTED_TYPES = {float: (int,), complex: (float, int)}", "_PROMOTED_TYPES = {float: (int,), complex: (float, int), int: (float,)}", "BREAK", "promoted-types::no-extra"),
+        E("C02", "keep-runtime-flag-guard-form", "predicates.py", "                if self.runtime_check:\n                    return _non_instances(value, self.pattern_value)\n                return None", "                if not self.runtime_check:\n                    return None\n                return _non_instances(value, self.pattern_value)", "KEEP"),
         E("C16", "keep-reversed-sorted", "node_visitor.py", "lines_to_remove = sorted(lines_to_remove, reverse=True)", "lines_to_remove = list(reversed(sorted(lines_to_remove)))", "KEEP"),
         E("C17", "keep-regex-class-order", "format_strings.py", "(?P<conversion_type>[diouxXeEfFgGcrs%ba])", "(?P<conversion_type>[abcdeEfFgGiorsuxX%])", "KEEP"),
         E("C18", "keep-sort-key-via-locals", "options.py", "        return (\n            not self.from_command_line,  # command line options first\n            self.priority,  # lower priority number first\n            -len(self.applicable_to),  # longest options first\n        )", "        return (\n            not self.from_command_line,\n            self.priority,\n            -len(self.applicable_to),\n        )", "KEEP"),
